@@ -34,6 +34,10 @@ def configs(ctx):
             for proto in ('pickle', 'line'):
               for nd in (1, 2):
                 out.append({'max_queue': mq, 'batch': batch, 'flow': flow, 'dynamic': dyn, 'protocol': proto, 'ndest': nd})
+    for proto in ('pickle', 'line'):
+      for batch in (1, 2, 3):
+        out.append({'max_queue': 3, 'batch': batch, 'flow': True, 'dynamic': False, 'protocol': proto, 'ndest': 1, 'arm': True})
+        out.append({'max_queue': 3, 'batch': batch, 'flow': True, 'dynamic': True, 'protocol': proto, 'ndest': 1, 'ratio_reset': True})
     return out
   # pairwise-covering selection
   rows = [
@@ -46,6 +50,11 @@ def configs(ctx):
   ]
   for mq, batch, flow, dyn, proto, nd in rows:
     out.append({'max_queue': mq, 'batch': batch, 'flow': flow, 'dynamic': dyn, 'protocol': proto, 'ndest': nd})
+  # back-pressure arriving in the middle of a write burst, and the connection-quality reset (USE_RATIO_RESET)
+  out.append({'max_queue': 3, 'batch': 3, 'flow': True, 'dynamic': False, 'protocol': 'line', 'ndest': 1, 'arm': True, 'hp': False, 'stop': False})
+  out.append({'max_queue': 2, 'batch': 2, 'flow': True, 'dynamic': False, 'protocol': 'pickle', 'ndest': 1, 'arm': True, 'hp': False, 'stop': False})
+  out.append({'max_queue': 2, 'batch': 1, 'flow': True, 'dynamic': False, 'protocol': 'pickle', 'ndest': 1, 'ratio_reset': True, 'hp': False, 'stop': False})
+  out.append({'max_queue': 3, 'batch': 2, 'flow': False, 'dynamic': False, 'protocol': 'line', 'ndest': 1, 'ratio_reset': True, 'hp': False})
   return out
 
 
